@@ -170,7 +170,7 @@ def check(case, rec):
     varying = any(leaves[i]['t'] not in ('const',) for i in used if i < len(leaves))
     rec.nontrivial = len(case['nodes']) >= 2 and varying and bool(case['features'])
     if 'interp-ends' in case['features']: rec.label('interp-with-end-values')
-    for ft in ('offdiagonal-reversed-axes', 'einsum-ellipsis', 'python-scalar-operand'):
+    for ft in ('offdiagonal-reversed-axes', 'einsum-ellipsis', 'python-scalar-operand', 'cross-axis-keyword'):
         if ft in case['features']: rec.label('feature:' + ft)
     for n in case['nodes']: rec.label('op:' + n['op'])
     rec.label('sample:' + case['sample']['kind'])
